@@ -1,0 +1,478 @@
+//! Verification hooks, compiled only with `--cfg grevm_verif`.
+//!
+//! The production code calls [`point`] immediately before a shared-memory operation and [`emit`]
+//! right after it. With no [`Hooks`] installed both are a single relaxed load. An external test
+//! harness installs a deterministic step controller that lets exactly one registered thread run
+//! between two consecutive points, which makes the event log a total order of atomic blocks.
+//!
+//! Nothing here changes scheduler behaviour: the facade lock types forward to `parking_lot`, and
+//! the probe types forward to the production methods of crate-private components.
+#![allow(missing_docs, missing_debug_implementations, unreachable_pub, dead_code)]
+
+use std::sync::{
+    Arc, RwLock,
+    atomic::{AtomicBool, Ordering},
+};
+
+/// Point groups. A controller enables a subset; a point outside that subset does not yield.
+pub mod group {
+    /// Scheduler-level critical sections (one action of the scheduler specification each).
+    pub const SCHED: u32 = 1;
+    /// Individual atomic operations of the cursors, frontier and logical clock.
+    pub const CURSOR: u32 = 2;
+    /// Individual lock regions and cursor operations of the dependency graph.
+    pub const DEP: u32 = 4;
+    /// Steps of the coordinator wait slot.
+    pub const WAIT: u32 = 8;
+    /// Steps of the committed cache (reader fills and commit mutations).
+    pub const CACHE: u32 = 16;
+    /// Individual beneficiary history entry operations.
+    pub const HIST: u32 = 32;
+    /// Entry-point election.
+    pub const ENTRY: u32 = 64;
+    /// Cursor operations performed inside a dependency-graph lock region.
+    pub const DEPX: u32 = 128;
+}
+
+/// A loosely typed event field.
+#[derive(Clone, Debug, PartialEq)]
+pub enum Val {
+    N,
+    B(bool),
+    I(i64),
+    S(String),
+    L(Vec<Val>),
+}
+
+impl From<bool> for Val {
+    fn from(v: bool) -> Self {
+        Val::B(v)
+    }
+}
+impl From<usize> for Val {
+    fn from(v: usize) -> Self {
+        Val::I(v as i64)
+    }
+}
+impl From<u64> for Val {
+    fn from(v: u64) -> Self {
+        Val::I(v as i64)
+    }
+}
+impl From<i64> for Val {
+    fn from(v: i64) -> Self {
+        Val::I(v)
+    }
+}
+impl From<&str> for Val {
+    fn from(v: &str) -> Self {
+        Val::S(v.to_owned())
+    }
+}
+impl From<String> for Val {
+    fn from(v: String) -> Self {
+        Val::S(v)
+    }
+}
+impl<T: Into<Val>> From<Option<T>> for Val {
+    fn from(v: Option<T>) -> Self {
+        v.map_or(Val::N, Into::into)
+    }
+}
+impl<T: Into<Val>> From<Vec<T>> for Val {
+    fn from(v: Vec<T>) -> Self {
+        Val::L(v.into_iter().map(Into::into).collect())
+    }
+}
+
+pub type Fields = Vec<(&'static str, Val)>;
+
+/// Callbacks implemented by the external step controller.
+pub trait Hooks: Send + Sync + 'static {
+    /// Schedule point placed before a shared-memory operation.
+    fn point(&self, group: u32, label: &'static str);
+    /// Record what the operation just performed observed or did.
+    fn emit(&self, group: u32, label: &'static str, fields: Fields);
+    /// Called by a parent before spawning a scheduler role.
+    fn spawn_ticket(&self) -> u64;
+    /// Called by the parent after spawning; returns once the child is registered.
+    fn await_registered(&self, ticket: u64);
+    fn thread_begin(&self, role: String, ticket: u64);
+    fn thread_end(&self, panicking: bool);
+    /// The calling thread is about to block in an OS-level join of its children.
+    fn blocking_begin(&self);
+    fn blocking_end(&self);
+    /// Returns when the calling thread is scheduled and the lock is free.
+    fn lock_request(&self, group: u32, id: usize);
+    fn lock_released(&self, id: usize);
+    fn slot_register(&self, slot: usize);
+    /// Token semantics of `std::thread::park`, without a timeout.
+    fn park(&self, slot: usize);
+    fn unpark(&self, slot: usize);
+    /// Start / fruitless end of one iteration of a polling loop.
+    fn spin_begin(&self);
+    fn spin_end(&self);
+    /// Whether the calling thread is driven by the controller.
+    fn controls_current_thread(&self) -> bool;
+}
+
+static ACTIVE: AtomicBool = AtomicBool::new(false);
+static HOOKS: RwLock<Option<Arc<dyn Hooks>>> = RwLock::new(None);
+
+pub fn install(hooks: Arc<dyn Hooks>) {
+    *HOOKS.write().unwrap() = Some(hooks);
+    ACTIVE.store(true, Ordering::SeqCst);
+}
+
+pub fn uninstall() {
+    ACTIVE.store(false, Ordering::SeqCst);
+    *HOOKS.write().unwrap() = None;
+}
+
+#[inline]
+pub fn hooks() -> Option<Arc<dyn Hooks>> {
+    if !ACTIVE.load(Ordering::Relaxed) {
+        return None;
+    }
+    HOOKS.read().unwrap().clone()
+}
+
+#[inline]
+pub fn controlled() -> Option<Arc<dyn Hooks>> {
+    hooks().filter(|h| h.controls_current_thread())
+}
+
+#[inline]
+pub fn point(group: u32, label: &'static str) {
+    if let Some(h) = hooks() {
+        h.point(group, label);
+    }
+}
+
+#[inline]
+pub fn emit(group: u32, label: &'static str, fields: impl FnOnce() -> Fields) {
+    if let Some(h) = hooks() {
+        h.emit(group, label, fields());
+    }
+}
+
+pub fn spawn_ticket() -> u64 {
+    hooks().map_or(0, |h| h.spawn_ticket())
+}
+
+pub fn await_registered(ticket: u64) {
+    if let Some(h) = hooks() {
+        h.await_registered(ticket);
+    }
+}
+
+pub fn blocking_begin() {
+    if let Some(h) = hooks() {
+        h.blocking_begin();
+    }
+}
+
+pub fn blocking_end() {
+    if let Some(h) = hooks() {
+        h.blocking_end();
+    }
+}
+
+pub fn spin_begin() {
+    if let Some(h) = hooks() {
+        h.spin_begin();
+    }
+}
+
+pub fn spin_end() {
+    if let Some(h) = hooks() {
+        h.spin_end();
+    }
+}
+
+/// Registers a scheduler role for its lifetime; reports a panic unwinding through it.
+pub struct ThreadGuard(bool);
+
+pub fn thread_guard(role: String, ticket: u64) -> ThreadGuard {
+    match hooks() {
+        Some(h) => {
+            h.thread_begin(role, ticket);
+            ThreadGuard(true)
+        }
+        None => ThreadGuard(false),
+    }
+}
+
+impl Drop for ThreadGuard {
+    fn drop(&mut self) {
+        if self.0 &&
+            let Some(h) = hooks()
+        {
+            h.thread_end(std::thread::panicking());
+        }
+    }
+}
+
+/// Hands each spawned scheduler role its name and registration ticket without changing what the
+/// spawning closures capture. Spawns are serialised by [`Roles::after_spawn`], so one pending
+/// ticket and one worker counter are enough and worker names follow spawn order.
+#[derive(Default)]
+pub struct Roles {
+    pending: std::sync::atomic::AtomicU64,
+    workers: std::sync::atomic::AtomicUsize,
+}
+
+impl Roles {
+    pub fn before_spawn(&self) {
+        self.pending.store(spawn_ticket(), Ordering::SeqCst);
+    }
+
+    pub fn after_spawn(&self) {
+        await_registered(self.pending.load(Ordering::SeqCst));
+    }
+
+    /// `role` is `fin`, `com`, or `w` (numbered in spawn order).
+    pub fn enter(&self, role: &str) -> ThreadGuard {
+        let role = if role == "w" {
+            format!("w{}", self.workers.fetch_add(1, Ordering::SeqCst))
+        } else {
+            role.to_owned()
+        };
+        thread_guard(role, self.pending.load(Ordering::SeqCst))
+    }
+}
+
+/// Build a field list: `vfields!("k" => expr, ...)`.
+#[macro_export]
+macro_rules! vfields {
+    ($($k:literal => $v:expr),* $(,)?) => {
+        vec![$(($k, $crate::verif::Val::from($v))),*]
+    };
+}
+
+/// Printable forms of crate-private data used in events.
+pub(crate) mod fmt {
+    use crate::{LocationAndType, MemoryValue, ReadVersion};
+    use revm_state::AccountInfo;
+
+    pub fn loc(location: &LocationAndType) -> String {
+        match location {
+            LocationAndType::Basic(a) => format!("B:{a:x}"),
+            LocationAndType::Storage(a, s) => format!("S:{a:x}:{s:x}"),
+            LocationAndType::StorageReset(a) => format!("R:{a:x}"),
+            LocationAndType::Code(a) => format!("C:{a:x}"),
+        }
+    }
+
+    pub fn info(info: Option<&AccountInfo>) -> String {
+        match info {
+            None => "none".to_owned(),
+            Some(i) => format!("{:x}/{}/{:x}", i.balance, i.nonce, i.code_hash),
+        }
+    }
+
+    pub fn value(value: &MemoryValue) -> String {
+        match value {
+            MemoryValue::Basic(i) => info(i.as_ref()),
+            MemoryValue::Code(c) => format!("code:{:x}", c.hash_slow()),
+            MemoryValue::Storage(v) => format!("{v:x}"),
+            MemoryValue::StorageReset => "reset".to_owned(),
+        }
+    }
+
+    /// Touched accounts of a finalized transaction state, sorted, one string each:
+    /// `addr|kind|info|slot=value,...` with kind as classified for publication.
+    pub fn state_digest(state: &revm_state::EvmState) -> Vec<String> {
+        use crate::account::FinalizedAccount;
+        let mut out = Vec::new();
+        for (address, account) in state {
+            let (kind, inf) = match FinalizedAccount::from(account) {
+                FinalizedAccount::Unchanged => continue,
+                FinalizedAccount::Deleted => ("deleted", "none".to_owned()),
+                FinalizedAccount::Created(i) => ("created", info(Some(i))),
+                FinalizedAccount::Updated(i) => ("updated", info(Some(i))),
+            };
+            let mut slots: Vec<String> = account
+                .changed_storage_slots()
+                .map(|(k, v)| format!("{k:x}={:x}", v.present_value))
+                .collect();
+            slots.sort();
+            out.push(format!("{address:x}|{kind}|{inf}|{}", slots.join(",")));
+        }
+        out.sort();
+        out
+    }
+
+    /// Execution result reduced to what an in-order reference can be compared with.
+    pub fn result_digest(result: &revm_context::result::ExecutionResult) -> String {
+        format!("{:x}", revm_primitives::keccak256(format!("{result:?}")))
+    }
+
+    /// `st` for a backing-store read, `tx.inc` for a multi-version read, `ben:<origins>` for a
+    /// beneficiary history read.
+    pub fn version(version: &ReadVersion) -> String {
+        match version {
+            ReadVersion::Storage => "st".to_owned(),
+            ReadVersion::MvMemory(v) => format!("{}.{}", v.txid, v.incarnation),
+            ReadVersion::Beneficiary(v) => format!("ben:{}", v.verif_origins()),
+        }
+    }
+}
+
+/// Facade over `parking_lot::Mutex` that tells the controller who owns which lock.
+pub mod sync {
+    use std::ops::{Deref, DerefMut};
+
+    pub struct Mutex<T, const G: u32 = { super::group::SCHED }>(parking_lot::Mutex<T>);
+
+    pub struct MutexGuard<'a, T> {
+        inner: Option<parking_lot::MutexGuard<'a, T>>,
+        id: usize,
+        reported: bool,
+    }
+
+    impl<T, const G: u32> Mutex<T, G> {
+        pub fn new(value: T) -> Self {
+            Self(parking_lot::Mutex::new(value))
+        }
+
+        pub fn lock(&self) -> MutexGuard<'_, T> {
+            let id = self as *const Self as usize;
+            if let Some(h) = super::controlled() {
+                h.lock_request(G, id);
+                let inner = self.0.try_lock().unwrap_or_else(|| self.0.lock());
+                return MutexGuard { inner: Some(inner), id, reported: true };
+            }
+            MutexGuard { inner: Some(self.0.lock()), id, reported: false }
+        }
+
+        pub fn into_inner(self) -> T {
+            self.0.into_inner()
+        }
+
+        pub fn get_mut(&mut self) -> &mut T {
+            self.0.get_mut()
+        }
+    }
+
+    impl<T: Default, const G: u32> Default for Mutex<T, G> {
+        fn default() -> Self {
+            Self::new(T::default())
+        }
+    }
+
+    impl<T: std::fmt::Debug, const G: u32> std::fmt::Debug for Mutex<T, G> {
+        fn fmt(&self, f: &mut std::fmt::Formatter<'_>) -> std::fmt::Result {
+            self.0.fmt(f)
+        }
+    }
+
+    impl<T> Deref for MutexGuard<'_, T> {
+        type Target = T;
+        fn deref(&self) -> &T {
+            self.inner.as_ref().unwrap()
+        }
+    }
+
+    impl<T> DerefMut for MutexGuard<'_, T> {
+        fn deref_mut(&mut self) -> &mut T {
+            self.inner.as_mut().unwrap()
+        }
+    }
+
+    impl<T> Drop for MutexGuard<'_, T> {
+        fn drop(&mut self) {
+            // Release the real lock before telling the controller it is free.
+            self.inner.take();
+            if self.reported &&
+                let Some(h) = super::hooks()
+            {
+                h.lock_released(self.id);
+            }
+        }
+    }
+}
+
+/// Public forwarding wrappers for crate-private components (no logic of their own).
+pub mod probe {
+    use crate::{TxVersion, beneficiary::history_probe, tx_dependency::TxDependency};
+    use revm_primitives::U256;
+    use revm_state::AccountInfo;
+    use std::sync::atomic::AtomicUsize;
+
+    pub use crate::scheduler::verif_probe::{Context, Slot};
+
+    pub struct Dependency(TxDependency);
+
+    impl Dependency {
+        pub fn new(num_txs: usize) -> Self {
+            Self(TxDependency::new(num_txs))
+        }
+        pub fn next(&self) -> Option<usize> {
+            self.0.next()
+        }
+        pub fn index(&self) -> usize {
+            self.0.index()
+        }
+        pub fn remove(&self, txid: usize, pop_next: bool) -> Option<usize> {
+            self.0.remove(txid, pop_next)
+        }
+        pub fn commit(&self, txid: usize) {
+            self.0.commit(txid)
+        }
+        pub fn key_tx(&self, txid: usize, committed: &AtomicUsize) {
+            self.0.key_tx(txid, crate::scheduler::PublishedCursorReader::new(committed))
+        }
+        pub fn add(&self, txid: usize, dep: Option<usize>) {
+            self.0.add(txid, dep)
+        }
+        /// `(onboard, dependency)` of one transaction and the reverse edges of one predecessor.
+        pub fn snapshot(&self, txid: usize) -> (bool, Option<usize>, Vec<usize>) {
+            self.0.verif_snapshot(txid)
+        }
+    }
+
+    /// Beneficiary history with balances as the only account field.
+    pub struct History(history_probe::Inner);
+
+    #[derive(Clone, Debug, PartialEq)]
+    pub struct HistoryRead {
+        pub balance: Option<U256>,
+        pub origins: Vec<(usize, usize)>,
+    }
+
+    impl History {
+        pub fn new(anchor: Option<U256>, block_size: usize) -> Self {
+            Self(history_probe::Inner::new(
+                anchor.map(|balance| AccountInfo { balance, ..Default::default() }),
+                block_size,
+            ))
+        }
+        pub fn resolve_before(&self, txid: usize) -> Result<HistoryRead, usize> {
+            self.0.resolve_before(txid).map(|(info, origins)| HistoryRead {
+                balance: info.map(|i| i.balance),
+                origins,
+            })
+        }
+        /// `effect`: `None` = unchanged, `Some(Ok(r))` = reward `r`, `Some(Err(b))` = snapshot
+        /// (`b = None` deletes the account).
+        pub fn record(
+            &self,
+            txid: usize,
+            incarnation: usize,
+            effect: Option<Result<U256, Option<U256>>>,
+        ) -> bool {
+            self.0.record(&TxVersion::new(txid, incarnation), effect)
+        }
+        pub fn record_estimate(&self, txid: usize, incarnation: usize) -> bool {
+            self.0.record_estimate(&TxVersion::new(txid, incarnation))
+        }
+        pub fn invalidate(&self, txid: usize, incarnation: usize) -> bool {
+            self.0.invalidate(&TxVersion::new(txid, incarnation))
+        }
+        /// `(valid, dependency)`.
+        pub fn validate(&self, txid: usize, expected: &[(usize, usize)]) -> (bool, Option<usize>) {
+            self.0.validate(txid, expected)
+        }
+    }
+}
